@@ -78,6 +78,9 @@ func c15Owner(o string, c ap.CollectionPath) (ds []keyed) {
 			add("split-name", fmt.Sprintf("Split(IRIf(%q, %s)) = (%q, %q): wrong collection name", o, c, string(back), string(name)))
 		} else if !oracle.EquivIRI(string(back), o, true) {
 			add("split-owner", fmt.Sprintf("Split(IRIf(%q, %s)) = (%q, %q): owner not equivalent", o, c, string(back), string(name)))
+		} else if !ap.IRI(o).Equals(back, true) || !back.Equals(ap.IRI(o), true) {
+			// equivalent by the reference, and by the library's own word too (what a caller would test it with)
+			add("split-owner-equals", fmt.Sprintf("Split(IRIf(%q, %s)) returned the owner %q, which the library's Equals does not take for %q", o, c, string(back), o))
 		}
 		viaHelper := c.IRI(ap.IRI(o))
 		owner, err := c.OfActor(viaHelper)
